@@ -159,3 +159,89 @@ def leak_suite(chk, quick=False):
                                   'no helper thread of the pool is alive once the with-block is left', input_class='real_threads_after_with_' + cause)
                 if a['handler'] != b['handler'] or a['lock'] != b['lock']:
                     chk.violation('sigint_handler_restored', case, {'before': b, 'after': a}, 'SIGINT handler and tqdm lock unchanged', input_class='real_handler_' + cause)
+
+
+PIPE_DRIVER = r'''
+import sys, json, time, faulthandler
+sys.path.insert(0, %(root)r)
+from mpire import WorkerPool
+BIG = b"x" * (2 * 1024 * 1024)          # far above the capacity of an OS pipe (64 KiB)
+def echo(idx, payload): return idx
+def big_result(idx): return (idx, BIG)
+def fail_first(idx, payload):
+    if idx == 0:
+        time.sleep(0.3)                  # the dispatcher fills the task queues meanwhile
+        raise ValueError('boom')
+    time.sleep(0.2)
+    return idx
+def main():
+    case, sm = sys.argv[1], sys.argv[2]
+    faulthandler.dump_traceback_later(45, exit=True)
+    t0 = time.time()
+    out = {'case': case}
+    try:
+        with WorkerPool(2, start_method=sm) as pool:
+            if case == 'big_args':
+                r = pool.map(echo, [(i, BIG) for i in range(12)], chunk_size=1)
+                out['ok'] = r == list(range(12))
+            elif case == 'big_results':
+                r = pool.map(big_result, range(10), chunk_size=1)
+                out['ok'] = [x[0] for x in r] == list(range(10)) and all(len(x[1]) == len(BIG) for x in r)
+            elif case == 'fail_with_big_args_queued':
+                try:
+                    pool.map(fail_first, [(i, BIG) for i in range(24)], chunk_size=1, max_tasks_active=24)
+                    out['ok'] = False
+                except ValueError:
+                    out['ok'] = True
+            elif case == 'abandon_with_big_args_queued':
+                g = pool.imap_unordered(echo, [(i, BIG) for i in range(24)], chunk_size=1, max_tasks_active=24)
+                next(g)
+                g.close()
+                out['ok'] = pool.map(echo, [(i, b'') for i in range(4)]) == [0, 1, 2, 3]
+            elif case == 'big_apply':
+                rs = [pool.apply_async(echo, (i, BIG)) for i in range(6)]
+                out['ok'] = [r.get(timeout=30) for r in rs] == list(range(6))
+                pool.stop_and_join()
+    except BaseException as e:
+        out['ok'] = False
+        out['error'] = type(e).__name__ + ': ' + str(e)[:100]
+    out['seconds'] = round(time.time() - t0, 2)
+    print(json.dumps(out))
+if __name__ == '__main__':
+    main()
+'''
+
+
+def pipe_suite(chk, quick=True):
+    """payloads far above the capacity of an OS pipe: every call ends (returns or raises what it should) within bounded time.
+    DetSim's queues are unbounded and have no feeder threads, so this half of C03 is explored on real processes only."""
+    code = PIPE_DRIVER % {'root': ROOT}
+    cases = ['big_args', 'big_results', 'fail_with_big_args_queued', 'abandon_with_big_args_queued', 'big_apply']
+    jobs = [(c, sm) for c in cases for sm in (('fork', 'threading', 'spawn') if not quick else ('fork',))]
+    if quick:
+        jobs = [('fail_with_big_args_queued', 'fork'), ('abandon_with_big_args_queued', 'fork'), ('big_results', 'fork'), ('big_args', 'threading')]
+    from concurrent.futures import ThreadPoolExecutor
+    with ThreadPoolExecutor(4) as ex:
+        results = list(ex.map(lambda j: run_driver(code, [j[0], j[1]], timeout=90), jobs))
+    suite = 'real processes: payloads above the pipe capacity (every call ends in time)'
+
+    def bad(r):
+        rc, out, err = r
+        try:
+            return not json.loads(out.strip().splitlines()[-1]).get('ok')
+        except Exception:
+            return True
+    # a probe that fails is repeated once on its own (the machine may be busy): only what fails again is reported
+    results = [r if not bad(r) else run_driver(code, [j[0], j[1]], timeout=90) for j, r in zip(jobs, results)]
+    for (case, sm), (rc, out, err) in zip(jobs, results):
+        c = {'case': case, 'start_method': sm, 'payload_bytes': 2 * 1024 * 1024}
+        try:
+            d = json.loads(out.strip().splitlines()[-1])
+        except Exception:
+            d = None
+        chk.count(suite, key=json.dumps(c), nontrivial=True, sample=dict(c, result=d, rc=rc), case=case, start=sm)
+        if rc == 'timeout' or (d is None and 'Timeout' in (err or '')) or (d is None and rc not in (0,)):
+            # the driver's own watchdog (45 s) or ours (90 s) fired: the call did not end — with stacks in `err` when it was the former
+            chk.violation('terminates', c, {'watchdog': rc, 'stacks': (err or '')[-1500:]}, 'the call returns or raises within bounded time', input_class='pipe_hang_' + case)
+        elif d is not None and not d.get('ok'):
+            chk.violation('terminates', c, d, 'the call ends with the right outcome', input_class='pipe_wrong_' + case)
